@@ -32,6 +32,9 @@ CMP = {'__eq__': 'eq', '__ne__': 'ne', '__gt__': 'gt', '__ge__': 'ge', '__lt__':
 
 def check_tables(model, rep, tables: UnitTables, R='C05.table'):
     n = 0
+    for kind, unit, ln in tables.duplicates:
+        rep.violation(R, f"{kind}.__UNITS[{unit!r}]:duplicate", f'the key {unit!r} is written twice in the table literal: Python keeps the last value, '
+                      f'the earlier line is dead text that still looks like the definition', f'{model.classes[kind].module}:{ln}')
     for kind, tab in sorted(tables.tables.items()):
         loc = f'{model.classes[kind].module}:{tables.nodes[kind].lineno}'
         if kind not in DIMS:
@@ -562,6 +565,9 @@ def check_ctor_stores(model, rep, sx, R='C05.ctor'):
 
 
 def check(model, rep):
+    # hidden state Python keeps outside the objects (not modelled by the evaluator): reported before anything else is evaluated
+    from checks.solver_common import package_lints as _package_lints
+    _package_lints(model, rep, 'C05.hidden-state', ('/units/',))
     rep.explain('C05: (1) all unit factors, folded exactly over Q[pi], against an independent compositional SI '
                 'oracle (exhaustive); (2) every to() implementation evaluated symbolically: SI magnitude preserved '
                 'on every non-raising path, copy == in-place, target unit stored, KeyError on unknown unit; '
